@@ -133,6 +133,8 @@ func c07(c *Ctx) (*report.Result, error) {
 	res.RuleDoc["O7.2"] = "report: DescribeCluster stores lcmParameters.LCM into HistoryShardCount on every path that returns a response in LCM mode without error and without the bypass header"
 	res.RuleDoc["O7.3"] = "remap: in handleStream's LCM case the forwarded client shard id is the incoming LCM shard id, the server shard id is mapShardIDUnique(LCM, TargetShardCount, incoming id) with arguments in that order, cluster ids are carried over unswapped, and all four metadata keys are set before the forwarder is built"
 	res.RuleDoc["O7.5"] = "every LCM shard id can open a stream: the stream handler reports the shard to the observer before forwarding, and the observer's slot access is guarded by a test against the length of the indexed slice (same analysis as O20.9) - LCM shard ids run up to local x remote, far beyond the table's initial size"
+	res.RuleDoc["O7.9"] = "the remapped ids are the ones the serving cluster sees: StreamForwarder.Run opens the source stream with exactly the targetMetadata the handler prepared (the only place where LCM mode's four rewrites live) - nothing is joined in front of it or appended to it; the forwarder's own shard id fields are the un-remapped ones and Temporal's decoder reads the first value of a key"
+	checkForwarderMetadataVerbatim(c, res, "O7.9")
 	res.RuleDoc["O7.8"] = "every LCM shard's stream can be open at once: no gRPC server of the module caps concurrent streams by a bound that is not derived from the LCM (today: no cap at all)"
 	checkNoStreamCap(c, res, "O7.8")
 	checkObserverIndexGuard(c, res, "O7.5")
